@@ -11,35 +11,84 @@ rc_bin("c17_race_tsan", ["harness/c17_race.cc"], lib=True, san="tsan")
 rc_bin("c17_rc_abi2", ["harness/c17_observables_gauges.cc"], lib=True, abi=2)
 PROPS["C17"] = dict(
     level_text="Stateful model-based property tests (rapidcheck, ASan/UBSan): generated histories of AddCallback / "
-               "RemoveCallback (also of near-miss triples that are not registered) / instrument destruction and creation / "
+               "RemoveCallback (also of near-miss triples that are not registered) / instrument destruction and creation "
+               "(plain, behind a view that renames the stream or names the aggregation, behind two views = two streams, or "
+               "as a further handle for an instrument name used before - second live handle / re-creation after destruction) / "
                "edits of the totals a (callback,state) pair reports (sets appearing, disappearing, reappearing; monotone "
                "and non-monotone) / Collect(reader i) over a MeterProvider with 1..3 in-harness readers of mixed "
-               "temporality and 1..2 meters are compared with invocation counters and a per-(reader, instrument, "
+               "temporality and 1..2 meters are compared with invocation counters and a per-(reader, stream, handle, "
                "attribute set) reference model. The synchronous-gauge clause is decided on SyncMetricStorage(kGauge, "
-               "last value) behind the MetricCollectors of a MeterContext in the baseline ABI v1 build and, in the "
-               "thorough tier, end to end through Meter::Create*Gauge with a second SDK build at ABI v2; the evidence "
-               "classes 'sync-gauge:storage-level' / 'sync-gauge:end-to-end(abi2)' and 'build:abi1' / 'build:abi2' say "
-               "which ran. Exploration is the right level: histories and reader configurations are unbounded.",
+               "last value, optionally behind an attribute allow-list that collapses recorded sets) behind the "
+               "MetricCollectors of a MeterContext or behind collector handles that keep the configured temporality (the "
+               "SDK's MetricCollector collects synchronous gauges cumulatively; class 'collectors:*' says which ran) in the "
+               "baseline ABI v1 build and, in the thorough tier, end to end through Meter::Create*Gauge with a second SDK "
+               "build at ABI v2; the evidence classes 'sync-gauge:storage-level' / 'sync-gauge:end-to-end(abi2)' and "
+               "'build:abi1' / 'build:abi2' say which ran. Two real-thread targets (ASan and TSan builds) race "
+               "RemoveCallback / instrument destruction against a collection, and let 2..3 readers collect concurrently. "
+               "Exploration is the right level: histories and reader configurations are unbounded.",
     technique="stateful model-based PBT (invocation counters + per-reader total model) over generated callback/collect "
-              "histories; rapidcheck",
+              "histories; rapidcheck; real threads for the two race targets",
     rule="A case = reader/meter configuration + operation history.",
+    generators="obs_model: 1..3 readers (all cumulative | all delta | delta except up-down | cumulative counters only), 1..2 "
+               "meters, up to 5 instrument handles: kind counter/up-down/gauge x long/double, shape plain | view renames the "
+               "stream | view names the default aggregation explicitly | two views (two streams) | further handle for an "
+               "earlier name (names whose handles are all destroyed 3x as likely). 2 callback functions x 3 state indices; "
+               "state index 2 uses a state object per (state, instrument) so an invocation identifies its registration, "
+               "indices 0/1 share one object so the same (callback,state) pair can sit on two instruments. Ops: Collect(reader), "
+               "edit script (bump all / set or replace one set's total / drop a set / clear), AddCallback, RemoveCallback, "
+               "RemoveCallback of a near-miss triple (other function / other state / other instrument), destroy, create. "
+               "Values: small, +-increments, 2^40 region, negatives (not for counters), gauge extremes and a decoy value observed "
+               "first. AddCallback of a triple that is registered already is generated (finding C17-double-registration, fixed in /repo "
+               "682a6ea). "
+               "sync_gauge_*: 1..3 readers, 1..2 gauges long/double, aggregation default | last value, allow-list none | {k} | {n}, "
+               "MetricCollectors | handles-as-configured (storage level), Record forms with/without attributes and context. "
+               "obs_concurrent_collect: 2..3 readers C/D, 1..2 callbacks whose total grows by one per invocation, 2..5 rounds of "
+               "10..59 Collects per reader thread.",
+    oracle="per Collect: every shared-state (callback,state) pair invoked exactly as often as it is registered on long / double "
+           "instruments, every own-state registration exactly once for its instrument and with its value type (a triple added k "
+           "times: 1..k), nothing that is not registered; per stream and handle: cumulative reader / gauge: a point for every "
+           "set observed now, every delivered point == last reported total / latest value, a value observed during another "
+           "reader's collection is still owed; delta reader: point == total - what that reader was given (zero may be omitted), "
+           "owed differences likewise; at most one MetricData per handle and stream name, no point for a set no handle of the "
+           "name reported, no set twice, right scope / point type / value type, last-value points flagged valid; two streams of "
+           "one instrument each follow the model on their own. Sync gauge: every (filtered) set recorded since the reader's "
+           "previous Collect is delivered (cumulative: every set ever), each delivered point == latest Record of all spellings of "
+           "that set. Race targets: no invocation after RemoveCallback / destruction returned; concurrent collections: number of "
+           "invocations == number of Collects, the total a reader holds after a Collect (value / sum of its deltas) lies between "
+           "the total before the call + 1 and the total at return, and equals the reported total in a sequential closing round.",
     assumptions=[
-        "callbacks of one instrument report disjoint attribute sets at every observation and a (callback,state) pair is "
-        "registered at most once at a time on one instrument (the code documents no merge rule for overlaps)",
+        "callbacks of one instrument - of all handles created for one instrument name, over the whole history - report "
+        "disjoint attribute sets at every observation (the code documents no merge rule for overlaps), and one (callback,state) "
+        "pair is not registered on two handles of one name",
+        "AddCallback of a (callback, state, instrument) triple that is registered already (finding C17-double-registration, "
+        "fixed in /repo 682a6ea): 1..k invocations are accepted for k AddCalls and RemoveCallback is repeated k times, the "
+        "delivered values are decided exactly",
+        "views on observable instruments only rename the stream or name the aggregation the instrument kind has by default "
+        "(sum / last value); attribute allow-lists on observable instruments are not generated (open finding "
+        "C19-ASYNC-VIEW-FILTER of property C19); several handles of one name may deliver up to one MetricData each",
         "a point for an attribute set that is not part of the current observation may be omitted; when it is delivered it "
         "must carry the last reported total (cumulative), the difference to what that reader was given (delta) or the "
         "latest value (gauge); a zero delta may be omitted",
         "totals of monotonic observable counters are non-negative; sum totals are bounded by 2^41 and doubles are "
         "multiples of 1/8, so model arithmetic is exact",
         "two samples with the same system_clock timestamp are not generated (the SDK reads the clock itself); a case in "
-        "which the clock does not strictly advance between two steps is abandoned without a verdict (class clock-anomaly)",
+        "which the clock does not strictly advance between two steps is abandoned without a verdict (class clock-anomaly); "
+        "a backward step of the system clock that falls exactly between a harness clock read and the SDK's own read is "
+        "assumed not to happen",
         "synchronous gauge: a reader configured cumulative is expected to receive every attribute set ever recorded, a "
-        "reader configured delta at least the sets recorded since its previous Collect",
+        "reader configured delta at least the sets recorded since its previous Collect - whether it really collects delta "
+        "(class check-syncgauge-true-delta-reader) or the SDK's MetricCollector made it cumulative (class "
+        "check-syncgauge-delta-configured-reader(sdk-collects-cumulative)); behind an allow-list the attribute set of a "
+        "Record is the filtered one",
+        "concurrent collections (obs_concurrent_collect) lie outside the property's quantifier (histories, configurations); "
+        "only schedule-independent consequences of the statement are asserted there",
         SC_NOTE,
     ],
     runs=[
         run("remove-race", "c17_race", "obs_remove_race", "rc", dict(procs=2, cases=150), dict(procs=4, cases=3000), deterministic=False),
         run("remove-race-tsan", "c17_race_tsan", "obs_remove_race", "rc", dict(procs=2, cases=100), dict(procs=4, cases=2000), deterministic=False, replay_bin="c17_race_tsan"),
+        run("concurrent-collect", "c17_race", "obs_concurrent_collect", "rc", dict(procs=2, cases=80), dict(procs=4, cases=2000), deterministic=False),
+        run("concurrent-collect-tsan", "c17_race_tsan", "obs_concurrent_collect", "rc", dict(procs=2, cases=80), dict(procs=4, cases=2000), deterministic=False, replay_bin="c17_race_tsan"),
         run("observables", "c17_rc", "obs_model", "rc", dict(procs=10, cases=12000), dict(procs=16, cases=120000)),
         run("sync-gauge-storage", "c17_rc", "sync_gauge_storage", "rc", dict(procs=4, cases=15000),
             dict(procs=8, cases=120000)),
